@@ -34,6 +34,8 @@ def run(tier):
         ["tokens", "L=%d" % (4 if q else 5), "opts=" + ALL_OPTS, "entries=%d" % ALL_ENTRIES],
         # raw bytes inside strings (UTF-8 validation): every byte sequence up to L bytes, class representatives up to R bytes,
         # as value, member name and array element, through the five char entry points
+        # one comment at every gap of every structural token sequence, comments on, trailing comma off and on
+        ["cgaps", "L=%d" % (6 if q else 7), "opts=1,3", "entries=%d" % (1 if q else 3)],
         # duplicate member names in objects of up to N members, four arrangements of the names
         ["wide", "N=%d" % (40 if q else 80), "entries=%d" % ALL_ENTRIES],
         ["utf8", "L=%d" % (2 if q else 3), "R=%d" % (4 if q else 5), "opts=0", "entries=47"],
